@@ -127,6 +127,12 @@ def scenarios_c11(quick, seed):
             # the entry is due for refresh when the race starts: reads return the old value and hand a reload to the executor; the refresh
             # calculator's reload hook is a gate, so other readers run while the reloaded value is being installed
             out[-1].update(getters=3, bulk=0, refreshers=0, writers=[], outcomes=["val"], stale=1, policy=["random", "pct"][(j // 6) % 2] + "+atcalc")
+        if j % 6 == 1:
+            # writers that write nothing (a SetIfAbsent that finds the preloaded key present, a computation that cancels itself) run while
+            # the reload is in flight: the reload is not disturbed, its result must replace the value before it is delivered
+            out[-1].update(getters=j % 2, bulk=0, refreshers=1 + (j // 12) % 2, outcomes=["val"],
+                           writers=[["setifabsent"], ["computecancel"], ["setifabsent", "computecancel"], ["computecancel", "computecancel"]][(j // 6) % 4],
+                           policy=["random", "pct"][(j // 6) % 2] + "+inflight")
     return out
 
 
